@@ -133,7 +133,7 @@ def _record(args):
     return C.record_trace(seed, mode)
 
 
-def record_and_validate(ctx, pid, modes, ntraces, *, procs=16):
+def record_and_validate(ctx, pid, modes, ntraces, *, procs=16, name='trace'):
     jobs = [(ctx.seed * 1000003 + 17 * i + 1, modes[i % len(modes)]) for i in range(ntraces)]
     with mp.Pool(procs) as pool:
         recs = pool.map(_record, jobs, chunksize=8)
@@ -154,14 +154,14 @@ def record_and_validate(ctx, pid, modes, ntraces, *, procs=16):
     ctx.extra['trace_inputs_outside_generator_constraints'] = ctx.extra.get('trace_inputs_outside_generator_constraints', 0) + skipped
     if not traces:
         raise MachineryError('no execution recorded')
-    accepted = validate(ctx, pid, traces, meta, 'trace')
+    accepted = validate(ctx, pid, traces, meta, name)
     # binding demonstrated: corrupting one recorded value must make the trace specification reject
     for idx in accepted:
         rd = traces[idx]['out']['rdms']
         if rd and rd[0] and len(rd[0][0]) >= 2 and rd[0][0][-1] != 0:
             bad = json.loads(json.dumps(traces[idx]))
             bad['out']['rdms'][0][0][-2] += 1
-            acc2 = validate(ctx, pid, [bad], [meta[idx]], 'trace_corrupt', report=False)
+            acc2 = validate(ctx, pid, [bad], [meta[idx]], name + '_corrupt', report=False)
             if acc2:
                 raise MachineryError('binding self-test: a corrupted recorded value was accepted by Trace_CalcRdm')
             ctx.extra['corrupted_trace_rejected'] = True
